@@ -28,7 +28,7 @@ ANCHORS = ['classes:_make_eq', 'classes:_make_ord', 'classes:_maybe_make_hash', 
            'classes:PaneBase.__repr__', 'classes:PaneBase.__init_subclass__']
 MIN_COUNTERS = {'quick': {'classes': 1500, 'eq_pairs': 40000, 'order_pairs': 20000, 'hash_categories_compared': 1500,
                           'hash_pairs': 15000, 'frozen_checks': 2000, 'copy_checks': 4000, 'replace_checks': 3000, 'repr_checks': 3000,
-                          'generic_pairs': 500}}
+                          'generic_pairs': 500, 'generic_method_comparisons': 300, 'hash_after_change_checks': 200}}
 
 POOL = {
     'int': (0, 1, 2),
